@@ -270,5 +270,9 @@ pub fn run(ctx: &Ctx) {
     { let d = loc_dictionary(); let mut v = Vec::new(); for loc in &d { for place in 0..4u8 { for home in 0..4u8 { if home > 0 && loc.first() != Some(&b'~') && loc.first() != Some(&b'$') { continue; } for cmd in 0..2u8 { v.push(Loc { loc: loc.clone(), place, home, cmd }); } } } }
       ctx.sse_vec("path_like_arguments", "a dictionary of 41 hostile or odd strings (~ forms, empty, directories, devices, /proc files, non-UTF-8, 5000 bytes, shell and format metacharacters) as keyring location (-k and KESTREL_KEYRING), input FILE and -o target of complete encrypt / decrypt command lines; ~ and $ forms under HOME unset / valid / not UTF-8 / empty", v, check_loc);
       ctx.pbt("path_like_arguments_random", ctx.n(1_500, 40_000), || (prop_oneof![proptest::collection::vec(any::<u8>(), 0..20), "[~/.$a-z]{1,12}".prop_map(|s| s.into_bytes()), "\\PC{1,8}".prop_map(|s| s.into_bytes())], 0u8..4, 0u8..4, 0u8..2).prop_map(|(loc, place, home, cmd)| Loc { loc, place, home, cmd }), check_loc); }
+    // the reader of the tool's output goes away: an error exit, never death by signal (shared with C12)
+    { use super::c12::{Case as C12, Req, FileKind, SenderPos, Sink, wiring_from}; let mut v = Vec::new();
+      for (i, req) in [Req::KeyEnc, Req::KeyDec(FileKind::Authentic), Req::PassEnc, Req::PassDec(FileKind::Authentic)].into_iter().enumerate() { for len in [1usize, 300_000] { v.push(C12 { req, plain: gen::Plain { len, seed: ctx.seed + 70 + i as u64 }, chunks: vec![], pos: SenderPos::First, wirings: vec![wiring_from(0)], sink: Sink::ClosedPipe, sel: ctx.seed, prior_out: None, env_decoy: 0, in_name: 0, typed: false, out_kinds: vec![], in_kinds: vec![], names: 0 }); } }
+      ctx.sse_vec("output_reader_gone", "encrypt / decrypt / password encrypt / password decrypt writing 1 B and 300 kB to a pipe nobody reads any more: exit status 1 with an Error: line, no signal", v, super::c12::check); }
     ctx.pbt("argv_random", ctx.n(6_000, 150_000), || (proptest::collection::vec(0usize..VOCAB, 0..9), 0u8..4).prop_map(|(toks, env_keyring)| Argv { toks, env_keyring }), check_argv);
 }
